@@ -79,8 +79,8 @@ def exhaustive_pure():
             field=None, value=None, old=None, new=None, field_needs_change=None, **kw))
     space = itertools.product([None, 'ADDED', 'MODIFIED', 'DELETED'], [False, True], [False, True],
                               [(), ('other/fin',), ('other/fin', 'zzz/fin')], ['none', 'equal', 'different'], [False, True],
-                              [False, True])
-    for event_type, deleting, own_fin, foreign, old_state, initial, fin_first in space:
+                              [False, True], [False, True])
+    for event_type, deleting, own_fin, foreign, old_state, initial, fin_first, empty in space:
         count += 1
         fins = list(foreign)
         if own_fin:
@@ -91,6 +91,8 @@ def exhaustive_pure():
         if deleting:
             meta['deletionTimestamp'] = '2030-01-01T00:00:00Z'
         raw = {'apiVersion': 'kopf.dev/v1', 'kind': 'KopfExample', 'metadata': meta, 'spec': {'f': 1}, 'status': {'s': 1}}
+        if empty:
+            del raw['spec']      # an object whose essence is empty ({}), e.g. a bare marker resource
         body = bodies.Body(raw)
         new = settings.persistence.diffbase_storage.build(body=body)
         old = None if old_state == 'none' else dict(new) if old_state == 'equal' else {'spec': {'f': 0}}
@@ -100,7 +102,7 @@ def exhaustive_pure():
             logger=logging.getLogger('x'), patch=patches.Patch(), body=body, old=old, new=new, diff=diff,
             memo=None, initial=initial)
         want = reference_reason(event_type, deleting, own_fin, old_state, initial)
-        combo = dict(type=event_type, deleting=deleting, own_finalizer=own_fin, foreign=list(foreign), stored=old_state, first_sight=initial)
+        combo = dict(type=event_type, deleting=deleting, own_finalizer=own_fin, foreign=list(foreign), stored=old_state, first_sight=initial, empty_essence=empty)
         if str(cause.reason) != want:
             failures.append(('C05/pure-reason', f'{combo}: classified as {cause.reason}, the statement says {want}'))
             continue
